@@ -124,6 +124,9 @@ def render(rng, tree, pos, style=None, hidden=0.0, hidden_at=None):
                 elif c == 3:
                     j = rng.randrange(0, s + 1)
                     sp = "%d+%d" % (s - j, j)
+                    if rng.random() < 0.3:
+                        # a sum whose first term is negative (counted from the end): -(n-s+j) + j
+                        sp = "%d+%d" % (s - n - j, j)
                 elif c == 4:
                     sp = " %d " % s
                 elif c == 5:
